@@ -1,36 +1,41 @@
 // logsites — walks the station's logging call sites (C17) and classifies every argument.
 //
-//	go run /verif/harness/logsites <repo root> > sites.json
+//	go run /verif/harness/logsites/main.go <repo root> > sites.json
 //
-// Standard library only (go/ast, go/parser, go/token); no type checking: receivers are
-// recognised by name, argument origins by a syntactic walk over the enclosing function.
+// Standard library only.  The walked set is computed, not listed: every package of the conjure
+// module in the dependency closure of the station binary (cmd/application), i.e. everything whose
+// log output the station process can emit, except the logger package itself.  Each package is
+// type-checked with go/types against the compiler's export data (`go list -export -deps`, which
+// works offline from the build cache), so that "is a logging call", "is an error", "is an
+// address" are decided by types.  Where an argument's value comes from (generalizeErr, a network
+// call, a reviewed producer) is still a syntactic walk over the enclosing function.
+// If type checking is impossible the walker falls back to names and says so ("typed": false).
 // The output is consumed by driver/props/c17.py, which regenerates coq/C17/Sites.v from it.
 package main
 
 import (
+	"bufio"
 	"bytes"
 	"encoding/json"
 	"fmt"
 	"go/ast"
+	"go/importer"
 	"go/parser"
 	"go/printer"
 	"go/token"
+	"go/types"
+	"io"
 	"os"
+	"os/exec"
 	"path/filepath"
 	"regexp"
 	"sort"
 	"strings"
 )
 
-var files = []string{
-	"cmd/application/conns.go",
-	"cmd/application/main.go",
-	"pkg/station/lib/proxies.go",
-	"pkg/station/lib/registration.go",
-	"pkg/station/lib/registration_ingest.go",
-}
+const module = "github.com/refraction-networking/conjure"
+const logPkg = module + "/pkg/station/log"
 
-// method name -> level (the order is read from pkg/station/log/logger.go, see levelOrder)
 var methodLevel = map[string]string{}
 
 func init() {
@@ -49,6 +54,7 @@ func init() {
 type Arg struct {
 	Class string `json:"class"` // Const Sanitised RawErr ClientAddr Placeholder Digest InternalErr
 	Text  string `json:"text"`
+	Type  string `json:"type,omitempty"`
 	Why   string `json:"why"`
 }
 type Site struct {
@@ -62,11 +68,14 @@ type Site struct {
 	Args   []Arg  `json:"args"`
 }
 type Out struct {
-	Sites      []Site         `json:"sites"`
-	LevelOrder map[string]int `json:"level_order"` // numeric value of each level constant
-	Default    string         `json:"default_level"`
-	Guards     map[string]string `json:"guards"` // `level <= X` guard of every Logger method
-	Sanitiser  map[string][]string `json:"sanitiser"` // per file: the cases of generalizeErr in order, and its fallback
+	Typed      bool                `json:"typed"`
+	TypeNote   string              `json:"type_note"`
+	Packages   []string            `json:"packages"`
+	Sites      []Site              `json:"sites"`
+	LevelOrder map[string]int      `json:"level_order"`
+	Default    string              `json:"default_level"`
+	Guards     map[string]string   `json:"guards"`
+	Sanitiser  map[string][]string `json:"sanitiser"`
 }
 
 var fset = token.NewFileSet()
@@ -77,39 +86,46 @@ func src(n ast.Node) string {
 	return b.String()
 }
 
-var addrExpr = regexp.MustCompile(`RemoteAddr\(\)|registrationAddr|GetRegistrationAddress\(\)|\bsourceAddr\b|\bclientAddr\b|\bremoteIP\b|\boriginalIPPort\b`)
-var digestExpr = regexp.MustCompile(`IDString\(\)|\.String\(\)$|^statsStr$|^tunStatsStr$|^flowDescription$`)
+// expressions that name the client's / registrant's address
+var addrExpr = regexp.MustCompile(`RemoteAddr\(\)|registrationAddr|GetRegistrationAddress\(\)|\bsourceAddr\b|\bclientAddr\b|\bremoteIP\b|\boriginalIPPort\b|\bremoteAddr\b|SrcAddr[46]`)
+
+// address-typed expressions that are NOT a client address: phantom, decoy, covert and the station's own addresses
+var notClientAddr = regexp.MustCompile(`(?i)phantom|originalDst|darkDecoy|decoyAddress|\bln\.Addr\(\)|listenAddr|LocalAddr\(\)|\bladdr\b|covert|\.decoy\b|ipOverride|subnet|\bnet\.IPv4\(`)
+var digestExpr = regexp.MustCompile(`IDString\(\)|^statsStr$|^tunStatsStr$`)
 
 // calls whose error result can carry the text of a network-stack error on the client connection
 // (or an arbitrary error produced while handling it)
 var netIO = map[string]bool{"Read": true, "Write": true, "Close": true, "SetDeadline": true, "SetReadDeadline": true,
 	"SetWriteDeadline": true, "SetLinger": true, "Copy": true, "CopyBuffer": true, "Dial": true, "WrapConnection": true,
-	"writePROXYHeader": true, "File": true, "CC": true, "ASN": true, "ReadFull": true}
+	"writePROXYHeader": true, "File": true, "CC": true, "ASN": true, "ReadFull": true, "Connect": true, "Accept": true,
+	"AcceptWithContext": true, "ClientWithContext": true, "Server": true, "Client": true}
 
-// reviewed producers of address-free errors (registration parsing / configuration / key handling);
-// an error from any other call is treated as raw
+// reviewed producers of address-free errors; an error from any other call is treated as raw
 var internalErr = map[string]string{
 	"ParseConfig": "configuration file errors", "ParseLevel": "log level name", "ParseBool": "environment flag text",
 	"ParsePrivateKey": "key file errors", "ParseZMQPrivateKey": "key file errors", "New": "constructor errors (prefix file, selector, geoip paths)",
 	"Default": "prefix file errors", "AddTransport": "transport table", "NewTransport": "dtls set-up", "NewZMQIngest": "zmq set-up",
-	"NewPhantomIPSelector": "subnet file", "GetPhantomSubnetSelector": "subnet file", "parseRegMessage": "protobuf decoding / phantom selection (no registrant address in the error texts)",
+	"NewPhantomIPSelector": "subnet file", "GetPhantomSubnetSelector": "subnet file", "parseRegMessage": "protobuf decoding / phantom selection (no registrant address in the error texts; GeoIP errors are generalized where they are wrapped)",
 	"ValidateRegistration": "fixed texts", "TrackRegIfNotExists": "fixed texts", "TrackRegistration": "fixed texts", "Marshal": "protobuf/json encoding",
-	"Unmarshal": "protobuf decoding", "NewRegistrationC2SWrapper": "phantom selection / transport parameter errors (length only for a bad registration address)",
+	"Unmarshal": "protobuf decoding", "NewRegistrationC2SWrapper": "phantom selection / transport parameter errors (length only for a bad registration address; GeoIP errors generalized)",
 	"executeHTTPRequest": "peer station URL, not a client address", "ListenTCP": "station's own listen address", "registerForDetector": "redis errors",
-	"NewRegistration": "phantom selection errors", "register": "tracking errors naming the registration id only",
-	"AcceptTCP": "listener error: carries the station's own listen address", "getOriginalDst": "bare errno from getsockopt",
-	"SetNonblock": "bare errno from fcntl", "UpdateFromConfig": "configuration", "FromString": "subnet text",
+	"NewRegistration": "phantom selection errors", "UpdateFromConfig": "configuration", "FromString": "subnet text",
+	"register": "tracking errors naming the registration id only", "AcceptTCP": "listener error: carries the station's own listen address",
+	"getOriginalDst": "bare errno from getsockopt", "SetNonblock": "bare errno from fcntl",
+	"Publish": "redis client errors (redis server address)", "Ping": "redis client errors (redis server address)", "Result": "redis client errors",
+	"NewSocket": "zmq set-up", "Connect_": "", "Bind": "zmq endpoint", "SetSubscribe": "zmq", "RecvBytes": "zmq receive", "SendBytes": "zmq send",
+	"ServerAuthCurve": "zmq auth", "AuthStart": "zmq auth", "Open": "file path errors", "ReadFile": "file path errors", "ReadAll": "csv/file errors",
+	"Remove": "file path errors", "Create": "file path errors", "Run": "external scanner command", "ParseDuration": "configuration text",
+	"ListenAndServe": "pprof listen address",
 }
 
 type fnCtx struct {
 	body *ast.BlockStmt
 	name string
-	file string
+	info *types.Info
 }
 
-// lastAssign finds the right-hand side most recently assigned to `name` before position `pos`
-// inside the function (syntactic order).
-func (f *fnCtx) lastAssign(name string, pos token.Pos) (rhs ast.Expr, at token.Pos, guarded string) {
+func (f *fnCtx) lastAssign(name string, pos token.Pos) (rhs ast.Expr, at token.Pos) {
 	ast.Inspect(f.body, func(n ast.Node) bool {
 		switch s := n.(type) {
 		case *ast.AssignStmt:
@@ -195,76 +211,203 @@ func calleeName(e ast.Expr) string {
 }
 
 var errName = regexp.MustCompile(`^(err|er|ew|e|eg|errN|response|err2|errConnClose|serverErr)$`)
+var errorIface = types.Universe.Lookup("error").Type().Underlying().(*types.Interface)
+
+func typeString(t types.Type) string {
+	if t == nil {
+		return ""
+	}
+	return types.TypeString(t, func(p *types.Package) string { return p.Name() })
+}
+
+// kindOf decides by type what sort of value an expression is: "error", "addr", "stringer", "string", "other", "" (untyped mode)
+func (f *fnCtx) kindOf(e ast.Expr) (string, string) {
+	if f.info == nil {
+		return "", ""
+	}
+	tv, ok := f.info.Types[e]
+	if !ok || tv.Type == nil {
+		return "other", ""
+	}
+	if tv.Value != nil {
+		return "const", typeString(tv.Type)
+	}
+	t := tv.Type
+	ts := typeString(t)
+	if types.Implements(t, errorIface) {
+		return "error", ts
+	}
+	switch strings.TrimPrefix(ts, "*") {
+	case "net.IP", "net.Addr", "net.TCPAddr", "net.UDPAddr", "net.IPAddr", "netip.Addr", "netip.AddrPort", "net.IPNet", "net.Conn", "net.TCPConn", "net.UDPConn":
+		return "addr", ts
+	}
+	if b, ok := t.Underlying().(*types.Basic); ok && b.Kind() == types.String {
+		return "string", ts
+	}
+	// a value with a String method prints through it
+	if ms := types.NewMethodSet(t); ms.Lookup(nil, "String") != nil {
+		return "stringer", ts
+	}
+	return "other", ts
+}
+
+// packages whose errors are about the station's own plumbing (message bus, redis, files,
+// encodings), never about a client connection; decided by the callee's package, i.e. by types
+var reviewedPkgs = map[string]string{
+	"github.com/pebbe/zmq4": "zmq socket errors name the station's own message-bus endpoints",
+	"github.com/go-redis/redis/v8": "redis client errors name the redis server", "github.com/go-redis/redis": "redis client errors name the redis server",
+	"encoding/json": "encoding", "google.golang.org/protobuf/proto": "protobuf", "os": "file path errors", "strconv": "number/flag text",
+	"github.com/BurntSushi/toml": "configuration file", "time": "duration text", "encoding/hex": "encoding", "encoding/csv": "csv",
+}
+
+// calleePkg returns the package path of the function or method a call expression invokes ("" if unknown)
+func (f *fnCtx) calleePkg(e ast.Expr) string {
+	c, ok := e.(*ast.CallExpr)
+	if !ok || f.info == nil {
+		return ""
+	}
+	var id *ast.Ident
+	switch fn := c.Fun.(type) {
+	case *ast.Ident:
+		id = fn
+	case *ast.SelectorExpr:
+		id = fn.Sel
+	}
+	if id == nil {
+		return ""
+	}
+	if fn, ok := f.info.Uses[id].(*types.Func); ok && fn.Pkg() != nil {
+		return fn.Pkg().Path()
+	}
+	return ""
+}
+
+func (f *fnCtx) classifyErrOrigin(name string, pos token.Pos, a *Arg) bool {
+	rhs, _ := f.lastAssign(name, pos)
+	if rhs == nil {
+		return false
+	}
+	cn := calleeName(rhs)
+	cp := f.calleePkg(rhs)
+	switch {
+	case cn == "generalizeErr":
+		a.Class, a.Why = "Sanitised", name+" = "+src(rhs)
+	case reviewedPkgs[cp] != "":
+		a.Class, a.Why = "InternalErr", name+" comes from "+cp+"."+cn+": "+reviewedPkgs[cp]
+	case netIO[cn]:
+		a.Class, a.Why = "RawErr", name+" comes from "+src(rhs)
+	case internalErr[cn] != "":
+		a.Class, a.Why = "InternalErr", name+" comes from "+cn+": "+internalErr[cn]
+	default:
+		a.Class, a.Why = "RawErr", name+" comes from an unreviewed producer: "+src(rhs)
+	}
+	return true
+}
+
+// placeholderFunc: functions of the walked packages that return the client address only under `if logClientIP`
+var placeholderFuncs = map[string]bool{}
 
 func (f *fnCtx) classify(e ast.Expr, pos token.Pos, depth int) Arg {
 	t := src(e)
-	a := Arg{Text: t}
-	switch x := e.(type) {
-	case *ast.BasicLit:
-		a.Class, a.Why = "Const", "literal"
+	kind, ts := f.kindOf(e)
+	a := Arg{Text: t, Type: ts}
+	if kind == "const" {
+		a.Class, a.Why = "Const", "constant"
 		return a
-	case *ast.CallExpr:
-		if calleeName(x) == "generalizeErr" {
+	}
+	if c, ok := e.(*ast.CallExpr); ok {
+		if calleeName(c) == "generalizeErr" {
 			a.Class, a.Why = "Sanitised", "generalizeErr(...)"
 			return a
 		}
-	case *ast.Ident:
+		if placeholderFuncs[calleeName(c)] {
+			a.Class, a.Why = "Placeholder", calleeName(c)+" returns the address only under `if logClientIP`, \"_\" otherwise"
+			return a
+		}
+	}
+	if _, ok := e.(*ast.BasicLit); ok {
+		a.Class, a.Why = "Const", "literal"
+		return a
+	}
+	if x, ok := e.(*ast.Ident); ok {
 		if x.Name == "originalSrc" || x.Name == "flowDescription" {
-			// placeholder mechanism: every address-bearing assignment must sit under `if logClientIP`
-			name := "originalSrc"
-			ok, seen := true, false
-			for _, as := range f.allAssigns(name) {
+			ok2, seen := true, false
+			for _, as := range f.allAssigns("originalSrc") {
 				if addrExpr.MatchString(as[0]) {
 					seen = true
 					if as[1] != "logClientIP" {
-						ok = false
+						ok2 = false
 					}
 				}
 			}
 			if x.Name == "flowDescription" {
 				for _, as := range f.allAssigns("flowDescription") {
 					if addrExpr.MatchString(as[0]) {
-						ok = false
+						ok2 = false
 					}
 				}
 			}
-			if ok && seen {
+			switch {
+			case ok2 && seen:
 				a.Class, a.Why = "Placeholder", "client address only under `if logClientIP`, \"_\" otherwise"
-			} else if ok {
+			case ok2:
 				a.Class, a.Why = "Const", "no client address assigned"
-			} else {
+			default:
 				a.Class, a.Why = "ClientAddr", "client address assigned outside the logClientIP guard"
 			}
 			return a
 		}
-		if depth < 4 {
-			if rhs, _, _ := f.lastAssign(x.Name, pos); rhs != nil {
-				if calleeName(rhs) == "generalizeErr" {
-					a.Class, a.Why = "Sanitised", x.Name+" = "+src(rhs)
-					return a
-				}
-				if errName.MatchString(x.Name) {
-					cn := calleeName(rhs)
-					switch {
-					case netIO[cn]:
-						a.Class, a.Why = "RawErr", x.Name+" comes from "+src(rhs)
-					case internalErr[cn] != "":
-						a.Class, a.Why = "InternalErr", x.Name+" comes from "+cn+": "+internalErr[cn]
-					default:
-						a.Class, a.Why = "RawErr", x.Name+" comes from an unreviewed producer: "+src(rhs)
-					}
-					return a
-				}
-				if addrExpr.MatchString(src(rhs)) {
-					a.Class, a.Why = "ClientAddr", x.Name+" = "+src(rhs)
-					return a
-				}
-				if digestExpr.MatchString(src(rhs)) || calleeName(rhs) == "Marshal" {
-					a.Class, a.Why = "Digest", x.Name+" = "+src(rhs)
-					return a
-				}
-			} else if errName.MatchString(x.Name) {
-				a.Class, a.Why = "RawErr", "error value of unknown origin (parameter or range variable)"
+	}
+	isErr := kind == "error" || (kind == "" && errName.MatchString(t))
+	if isErr {
+		if x, ok := e.(*ast.Ident); ok {
+			if f.classifyErrOrigin(x.Name, pos, &a) {
+				return a
+			}
+			a.Class, a.Why = "RawErr", "error value of unknown origin (parameter, field or range variable)"
+			return a
+		}
+		if c, ok := e.(*ast.CallExpr); ok {
+			cn := calleeName(c)
+			if internalErr[cn] != "" && !netIO[cn] {
+				a.Class, a.Why = "InternalErr", "error from "+cn+": "+internalErr[cn]
+				return a
+			}
+		}
+		a.Class, a.Why = "RawErr", "error-typed expression"
+		return a
+	}
+	if kind == "addr" {
+		if notClientAddr.MatchString(t) && !addrExpr.MatchString(t) {
+			a.Class, a.Why = "Const", "address-typed, but a phantom / decoy / covert / own address by name"
+		} else {
+			a.Class, a.Why = "ClientAddr", "address-typed value ("+ts+") that is not known to be a phantom / covert / own address"
+		}
+		return a
+	}
+	// strings and other values: where do they come from?
+	if x, ok := e.(*ast.Ident); ok && depth < 4 {
+		if rhs, _ := f.lastAssign(x.Name, pos); rhs != nil {
+			rs := src(rhs)
+			if addrExpr.MatchString(rs) {
+				a.Class, a.Why = "ClientAddr", x.Name+" = "+rs
+				return a
+			}
+			if rk, _ := f.kindOf(rhs); rk == "addr" && !notClientAddr.MatchString(rs) {
+				a.Class, a.Why = "ClientAddr", x.Name+" = "+rs+" (address-typed)"
+				return a
+			}
+			if digestExpr.MatchString(rs) || calleeName(rhs) == "Marshal" {
+				a.Class, a.Why = "Digest", x.Name+" = "+rs
+				return a
+			}
+		}
+	}
+	// x.String() on an address-typed receiver
+	if c, ok := e.(*ast.CallExpr); ok {
+		if sel, ok := c.Fun.(*ast.SelectorExpr); ok && sel.Sel.Name == "String" {
+			if rk, rts := f.kindOf(sel.X); rk == "addr" && !(notClientAddr.MatchString(src(sel.X)) && !addrExpr.MatchString(src(sel.X))) {
+				a.Class, a.Why = "ClientAddr", "String() of an address-typed value ("+rts+")"
 				return a
 			}
 		}
@@ -272,80 +415,162 @@ func (f *fnCtx) classify(e ast.Expr, pos token.Pos, depth int) Arg {
 	switch {
 	case addrExpr.MatchString(t):
 		a.Class, a.Why = "ClientAddr", "expression names the client / registrant address"
-	case digestExpr.MatchString(t):
-		a.Class, a.Why = "Digest", "registration / tunnel digest"
-	case errName.MatchString(t):
-		a.Class, a.Why = "RawErr", "error value"
+	case digestExpr.MatchString(t) || kind == "stringer":
+		a.Class, a.Why = "Digest", "registration id / value printed through its String method"
 	default:
 		a.Class, a.Why = "Const", "non-address value"
 	}
 	return a
 }
 
-func isLoggerRecv(e ast.Expr) bool {
-	t := src(e)
-	return t == "log" || t == "golog" || strings.HasSuffix(t, "ogger") || strings.HasSuffix(t, "Logger")
+// verbs returns the verb of each formatted operand of a Printf format string
+func verbs(format string) []byte {
+	var out []byte
+	for i := 0; i < len(format); i++ {
+		if format[i] != '%' {
+			continue
+		}
+		i++
+		for i < len(format) && strings.IndexByte("+-# 0123456789.*[]", format[i]) >= 0 {
+			i++
+		}
+		if i < len(format) && format[i] != '%' {
+			out = append(out, format[i])
+		}
+	}
+	return out
 }
 
-func walkFile(root, rel string, out *Out) error {
-	path := filepath.Join(root, rel)
-	f, err := parser.ParseFile(fset, path, nil, parser.ParseComments)
-	if err != nil {
-		return err
+// what kind of logging call is this?  returns (receiver text, method, level) or ok=false
+func (f *fnCtx) logCall(c *ast.CallExpr) (recv, method, level string, ok bool) {
+	sel, isSel := c.Fun.(*ast.SelectorExpr)
+	if !isSel {
+		return
 	}
+	name := sel.Sel.Name
+	if f.info != nil {
+		obj := f.info.Uses[sel.Sel]
+		fn, isFn := obj.(*types.Func)
+		if !isFn || fn.Pkg() == nil {
+			return
+		}
+		pkg := fn.Pkg().Path()
+		sig := fn.Type().(*types.Signature)
+		switch {
+		case pkg == logPkg || pkg == "log":
+			if name == "New" && sig.Recv() == nil {
+				return src(sel.X), "New(prefix)", "Print", true
+			}
+			if name == "SetPrefix" {
+				return src(sel.X), name, "Print", true
+			}
+			if lv, isLog := methodLevel[name]; isLog {
+				return src(sel.X), name, lv, true
+			}
+		case pkg == "fmt":
+			switch name {
+			case "Print", "Printf", "Println":
+				return "fmt", name, "Print", true
+			case "Fprint", "Fprintf", "Fprintln":
+				if len(c.Args) > 0 && (src(c.Args[0]) == "os.Stdout" || src(c.Args[0]) == "os.Stderr") {
+					return "fmt(" + src(c.Args[0]) + ")", name, "Print", true
+				}
+			}
+		}
+		return
+	}
+	// untyped fallback: by name
+	t := src(sel.X)
+	isLogger := t == "log" || t == "golog" || strings.HasSuffix(t, "ogger") || strings.HasSuffix(t, "Logger")
+	if t == "log" && name == "New" && len(c.Args) == 3 {
+		return t, "New(prefix)", "Print", true
+	}
+	if !isLogger {
+		return
+	}
+	if name == "SetPrefix" {
+		return t, name, "Print", true
+	}
+	if lv, isLog := methodLevel[name]; isLog {
+		return t, name, lv, true
+	}
+	return
+}
+
+func walkFile(rel string, f *ast.File, info *types.Info, out *Out) {
 	for _, d := range f.Decls {
 		fd, ok := d.(*ast.FuncDecl)
 		if !ok || fd.Body == nil {
 			continue
 		}
-		ctx := &fnCtx{body: fd.Body, name: fd.Name.Name, file: rel}
+		ctx := &fnCtx{body: fd.Body, name: fd.Name.Name, info: info}
 		ast.Inspect(fd.Body, func(n ast.Node) bool {
 			c, ok := n.(*ast.CallExpr)
 			if !ok {
 				return true
 			}
-			sel, ok := c.Fun.(*ast.SelectorExpr)
-			if !ok {
+			recv, method, lvl, isLog := ctx.logCall(c)
+			if !isLog {
 				return true
 			}
-			// log.New(w, prefix, flags): the prefix is printed in front of every line of that logger
-			if src(sel.X) == "log" && sel.Sel.Name == "New" && len(c.Args) == 3 {
-				s := Site{File: rel, Line: fset.Position(c.Pos()).Line, Func: fd.Name.Name, Recv: "log", Method: "New(prefix)", Level: "Print"}
-				ast.Inspect(c.Args[1], func(m ast.Node) bool {
-					switch y := m.(type) {
-					case *ast.Ident:
-						s.Args = append(s.Args, ctx.classify(y, c.Pos(), 0))
-					case *ast.BasicLit:
-						return false
-					}
-					return true
-				})
+			s := Site{File: rel, Line: fset.Position(c.Pos()).Line, Func: fd.Name.Name, Recv: recv, Method: method, Level: lvl}
+			if method == "New(prefix)" {
+				if len(c.Args) == 3 {
+					ast.Inspect(c.Args[1], func(m ast.Node) bool {
+						switch y := m.(type) {
+						case *ast.Ident:
+							if k, _ := ctx.kindOf(y); k != "const" || info == nil {
+								if _, isPkg := info_uses_pkg(info, y); !isPkg {
+									s.Args = append(s.Args, ctx.classify(y, c.Pos(), 0))
+								}
+							}
+						case *ast.BasicLit:
+							return false
+						case *ast.SelectorExpr:
+							// package-qualified constants (golog.Ldate) are not values of interest
+							if id, ok := y.X.(*ast.Ident); ok {
+								if _, isPkg := info_uses_pkg(info, id); isPkg {
+									return false
+								}
+							}
+						}
+						return true
+					})
+				}
 				out.Sites = append(out.Sites, s)
 				return true
 			}
-			// logger.SetPrefix(fmt.Sprintf(...))
-			lvl, ok := methodLevel[sel.Sel.Name]
-			if sel.Sel.Name == "SetPrefix" && isLoggerRecv(sel.X) {
-				lvl, ok = "Print", true
-			}
-			if !ok || !isLoggerRecv(sel.X) {
-				return true
-			}
-			s := Site{File: rel, Line: fset.Position(c.Pos()).Line, Func: fd.Name.Name, Recv: src(sel.X), Method: sel.Sel.Name, Level: lvl}
 			args := c.Args
+			if strings.HasPrefix(method, "Fprint") {
+				args = args[1:]
+			}
 			if len(args) == 1 {
 				if inner, ok := args[0].(*ast.CallExpr); ok && calleeName(inner) == "Sprintf" {
 					args = inner.Args
 				}
 			}
+			var vb []byte
+			isF := strings.HasSuffix(method, "f") || method == "SetPrefix"
 			for i, a := range args {
-				if i == 0 {
+				if i == 0 && isF {
+					if bl, ok := a.(*ast.BasicLit); ok {
+						s.Format = bl.Value
+						vb = verbs(bl.Value)
+						continue
+					}
+				}
+				if i == 0 && !isF {
 					if bl, ok := a.(*ast.BasicLit); ok {
 						s.Format = bl.Value
 						continue
 					}
 				}
-				s.Args = append(s.Args, ctx.classify(a, c.Pos(), 0))
+				arg := ctx.classify(a, c.Pos(), 0)
+				k := len(s.Args)
+				if isF && s.Format != "" && k < len(vb) && vb[k] == 'T' {
+					arg.Class, arg.Why = "Const", "%T prints the type only"
+				}
+				s.Args = append(s.Args, arg)
 			}
 			out.Sites = append(out.Sites, s)
 			return true
@@ -353,7 +578,7 @@ func walkFile(root, rel string, out *Out) error {
 		// composite literals that become log / statistics records
 		ast.Inspect(fd.Body, func(n ast.Node) bool {
 			cl, ok := n.(*ast.CompositeLit)
-			if !ok {
+			if !ok || cl.Type == nil {
 				return true
 			}
 			tn := src(cl.Type)
@@ -375,12 +600,10 @@ func walkFile(root, rel string, out *Out) error {
 			out.Sites = append(out.Sites, s)
 			return true
 		})
-		// the sanitiser's shape
 		if fd.Name.Name == "generalizeErr" {
 			var cases []string
 			ast.Inspect(fd.Body, func(n ast.Node) bool {
-				switch x := n.(type) {
-				case *ast.CaseClause:
+				if x, ok := n.(*ast.CaseClause); ok {
 					var conds []string
 					for _, e := range x.List {
 						conds = append(conds, src(e))
@@ -408,7 +631,215 @@ func walkFile(root, rel string, out *Out) error {
 			out.Sanitiser[rel] = cases
 		}
 	}
-	return nil
+}
+
+func info_uses_pkg(info *types.Info, id *ast.Ident) (*types.PkgName, bool) {
+	if info == nil {
+		return nil, false
+	}
+	p, ok := info.Uses[id].(*types.PkgName)
+	return p, ok
+}
+
+// findPlaceholderFuncs: a function whose every address-bearing return sits in the THEN branch of an
+// `if` whose condition mentions logClientIP, and that otherwise returns a literal
+func findPlaceholderFuncs(files []*ast.File) {
+	for _, f := range files {
+		for _, d := range f.Decls {
+			fd, ok := d.(*ast.FuncDecl)
+			if !ok || fd.Body == nil || fd.Type.Results == nil {
+				continue
+			}
+			guarded, unguarded := 0, 0
+			var walk func(n ast.Node, cond string)
+			walk = func(n ast.Node, cond string) {
+				ast.Inspect(n, func(m ast.Node) bool {
+					switch s := m.(type) {
+					case *ast.IfStmt:
+						walk(s.Body, src(s.Cond))
+						if s.Else != nil {
+							walk(s.Else, "")
+						}
+						return false
+					case *ast.ReturnStmt:
+						for _, r := range s.Results {
+							if addrExpr.MatchString(src(r)) {
+								if strings.Contains(cond, "logClientIP") {
+									guarded++
+								} else {
+									unguarded++
+								}
+							}
+						}
+					}
+					return true
+				})
+			}
+			walk(fd.Body, "")
+			if guarded > 0 && unguarded == 0 {
+				placeholderFuncs[fd.Name.Name] = true
+			}
+		}
+	}
+}
+
+func goList(dir string, args ...string) ([]byte, error) {
+	cmd := exec.Command("go", append([]string{"list"}, args...)...)
+	cmd.Dir = dir
+	env := []string{}
+	for _, e := range os.Environ() {
+		if !strings.HasPrefix(e, "GO111MODULE=") && !strings.HasPrefix(e, "GOFLAGS=") {
+			env = append(env, e)
+		}
+	}
+	cmd.Env = append(env, "GO111MODULE=on", "GOFLAGS=", "GOPROXY=off", "GOSUMDB=off", "GOTOOLCHAIN=local")
+	var stderr bytes.Buffer
+	cmd.Stderr = &stderr
+	out, err := cmd.Output()
+	if err != nil {
+		return nil, fmt.Errorf("%v: %s", err, stderr.String())
+	}
+	return out, nil
+}
+
+type pkgInfo struct {
+	path, dir string
+	files     []string
+}
+
+func main() {
+	if len(os.Args) < 2 {
+		fmt.Fprintln(os.Stderr, "usage: logsites <repo root>")
+		os.Exit(2)
+	}
+	root, _ := filepath.Abs(os.Args[1])
+	appDir := filepath.Join(root, "cmd", "application")
+	var out Out
+	out.Typed = true
+
+	// the walked set: conjure packages in the dependency closure of the station binary
+	raw, err := goList(appDir, "-deps", "-f", "{{.ImportPath}}\t{{.Dir}}\t{{join .GoFiles \",\"}}\t{{join .CgoFiles \",\"}}", ".")
+	var pkgs []pkgInfo
+	if err != nil {
+		out.Typed, out.TypeNote = false, "go list failed: "+err.Error()
+		// fallback: the directories the property anchors
+		for _, d := range []string{"cmd/application", "pkg/station/lib"} {
+			m, _ := filepath.Glob(filepath.Join(root, d, "*.go"))
+			p := pkgInfo{path: d, dir: filepath.Join(root, d)}
+			for _, x := range m {
+				if !strings.HasSuffix(x, "_test.go") {
+					p.files = append(p.files, filepath.Base(x))
+				}
+			}
+			pkgs = append(pkgs, p)
+		}
+	} else {
+		sc := bufio.NewScanner(bytes.NewReader(raw))
+		sc.Buffer(make([]byte, 1<<20), 1<<20)
+		for sc.Scan() {
+			f := strings.Split(sc.Text(), "\t")
+			if len(f) < 3 {
+				continue
+			}
+			isConj := strings.HasPrefix(f[0], module+"/") || f[1] == appDir
+			if !isConj || f[0] == logPkg || strings.HasSuffix(f[0], "/proto") || strings.Contains(f[0], "/internal/verifhook") {
+				continue
+			}
+			p := pkgInfo{path: f[0], dir: f[1], files: strings.Split(f[2], ",")}
+			if len(f) > 3 && f[3] != "" {
+				p.files = append(p.files, strings.Split(f[3], ",")...)
+			}
+			pkgs = append(pkgs, p)
+		}
+	}
+
+	// export data of everything the walked packages import
+	exp := map[string]string{}
+	if out.Typed {
+		for _, dir := range []string{appDir} {
+			raw, err := goList(dir, "-export", "-deps", "-f", "{{.ImportPath}}\t{{.Export}}", ".")
+			if err != nil {
+				out.Typed, out.TypeNote = false, "go list -export failed: "+err.Error()
+				break
+			}
+			sc := bufio.NewScanner(bytes.NewReader(raw))
+			sc.Buffer(make([]byte, 1<<20), 1<<20)
+			for sc.Scan() {
+				f := strings.SplitN(sc.Text(), "\t", 2)
+				if len(f) == 2 && f[1] != "" {
+					exp[f[0]] = f[1]
+				}
+			}
+		}
+	}
+	lookup := func(path string) (io.ReadCloser, error) {
+		f, ok := exp[path]
+		if !ok {
+			return nil, fmt.Errorf("no export data for %s", path)
+		}
+		return os.Open(f)
+	}
+
+	type parsed struct {
+		p     pkgInfo
+		files []*ast.File
+		rels  []string
+	}
+	var all []parsed
+	var allFiles []*ast.File
+	for _, p := range pkgs {
+		pp := parsed{p: p}
+		for _, fn := range p.files {
+			if fn == "" {
+				continue
+			}
+			path := filepath.Join(p.dir, fn)
+			f, err := parser.ParseFile(fset, path, nil, parser.ParseComments)
+			if err != nil {
+				fmt.Fprintln(os.Stderr, "logsites:", err)
+				os.Exit(1)
+			}
+			rel, _ := filepath.Rel(root, path)
+			pp.files = append(pp.files, f)
+			pp.rels = append(pp.rels, rel)
+			allFiles = append(allFiles, f)
+		}
+		all = append(all, pp)
+	}
+	findPlaceholderFuncs(allFiles)
+	for _, pp := range all {
+		var info *types.Info
+		if out.Typed {
+			info = &types.Info{Types: map[ast.Expr]types.TypeAndValue{}, Uses: map[*ast.Ident]types.Object{},
+				Defs: map[*ast.Ident]types.Object{}, Selections: map[*ast.SelectorExpr]*types.Selection{}}
+			var terrs []string
+			conf := types.Config{Importer: importer.ForCompiler(fset, "gc", lookup), FakeImportC: true,
+				Error: func(err error) { terrs = append(terrs, err.Error()) }}
+			conf.Check(pp.p.path, fset, pp.files, info)
+			if len(terrs) > 0 {
+				out.TypeNote += fmt.Sprintf("%s: %d type errors (first: %s); ", pp.p.path, len(terrs), terrs[0])
+			}
+		}
+		rel, _ := filepath.Rel(root, pp.p.dir)
+		out.Packages = append(out.Packages, rel)
+		for i, f := range pp.files {
+			walkFile(pp.rels[i], f, info, &out)
+		}
+	}
+	if err := levelOrder(root, &out); err != nil {
+		fmt.Fprintln(os.Stderr, "logsites:", err)
+		os.Exit(1)
+	}
+	sort.SliceStable(out.Sites, func(i, j int) bool {
+		if out.Sites[i].File != out.Sites[j].File {
+			return out.Sites[i].File < out.Sites[j].File
+		}
+		return out.Sites[i].Line < out.Sites[j].Line
+	})
+	sort.Strings(out.Packages)
+	enc := json.NewEncoder(os.Stdout)
+	enc.SetIndent("", " ")
+	enc.Encode(out)
 }
 
 func levelOrder(root string, out *Out) error {
@@ -465,32 +896,4 @@ func levelOrder(root string, out *Out) error {
 		}
 	}
 	return nil
-}
-
-func main() {
-	if len(os.Args) < 2 {
-		fmt.Fprintln(os.Stderr, "usage: logsites <repo root>")
-		os.Exit(2)
-	}
-	root := os.Args[1]
-	var out Out
-	for _, rel := range files {
-		if err := walkFile(root, rel, &out); err != nil {
-			fmt.Fprintln(os.Stderr, "logsites:", err)
-			os.Exit(1)
-		}
-	}
-	if err := levelOrder(root, &out); err != nil {
-		fmt.Fprintln(os.Stderr, "logsites:", err)
-		os.Exit(1)
-	}
-	sort.SliceStable(out.Sites, func(i, j int) bool {
-		if out.Sites[i].File != out.Sites[j].File {
-			return out.Sites[i].File < out.Sites[j].File
-		}
-		return out.Sites[i].Line < out.Sites[j].Line
-	})
-	enc := json.NewEncoder(os.Stdout)
-	enc.SetIndent("", " ")
-	enc.Encode(out)
 }
